@@ -94,7 +94,7 @@ def main():
         'notes': 'All 20 properties are claimed through structural clauses only (see level_claimed.text for what is NOT decided per property). Genuine defects found: '
                  '10 repaired by fix: commits in /repo, 1 recorded in /verif/known_findings.json (C20.5). ./check selftest runs the variant corpus (broken variants must fire, '
                  'refactoring twins must stay silent); thorough tier = quick + that sensitivity exploration (hand-written variants and generated twins) on the current tree. '
-                 '/verif/seeded holds 260 independently seeded property-breaking changes (all reported), /verif/twins 289 behaviour-preserving patches (independent refactorings, additive patches and repaired seeded changes - all silent; 3 more that are not silent are kept and explained in /verif/twins-unsupported), /verif/mutation a mutation run over the package.',
+                 '/verif/seeded holds 300 independently seeded property-breaking changes (299 reported by their target check, one answered with ANALYSIS-ERROR), /verif/twins 334 behaviour-preserving patches (independent refactorings, additive patches and repaired seeded changes - all silent; 7 more that are not silent are kept and explained in /verif/twins-unsupported), /verif/mutation a mutation run over the package.',
     }
     json.dump(m, open(os.path.join(HERE, 'MANIFEST.json'), 'w'), indent=1)
     print('wrote MANIFEST.json with %d checks' % len(checks))
